@@ -17,6 +17,7 @@ from common import Check, Driver, Infra, VERIF, sarpy_guard
 import segtree
 import c01complete
 import segmodel
+import dispatch
 import nitfasm
 
 sys.path.insert(0, os.path.join(VERIF, 'translate'))
@@ -626,8 +627,11 @@ def run(tier):
     gen_info = gen_slices.generate(os.path.join(VERIF, 'lean', 'SarpyModel', 'Gen', 'Slices.lean'))
     if gen_info['unsupported']:
         gen_info['note'] = 'translator could not express: ' + json.dumps(gen_info['unsupported'])
+    gen_info['dispatch'] = dispatch.regen()
     nitfasm.regenerate(chk)          # Gen/NitfOrient.lean: the NITF reader's orientation tables, from the current source
-    broken = chk.prove(['SarpyModel.Props.C01', 'SarpyModel.Props.C01Nd', 'SarpyModel.Props.C01Complete', segmodel.SEG_MODULE, nitfasm.NITF_MODULE, 'SarpyModel.Drivers'], 'SarpyModel.Props.C01Complete', 'Sarpy.Props.C01', REQUIRED, gen_info)
+    broken = chk.prove(['SarpyModel.Props.C01', 'SarpyModel.Props.C01Nd', 'SarpyModel.Props.C01Complete', segmodel.SEG_MODULE, nitfasm.NITF_MODULE, 'SarpyModel.Drivers']
+                       + dispatch.targets_reads(), 'SarpyModel.Props.C01Complete', 'Sarpy.Props.C01', REQUIRED, gen_info,
+                       extra=dispatch.extra_reads())
     if not broken:
         segmodel.obligations_reads(chk, broken)      # Props/C01Seg.lean: segment trees as index maps, read = select(full)
         nitfasm.obligations(chk, broken)             # Props/C01Nitf.lean: how the NITF reader builds those trees from subheader fields
@@ -768,15 +772,30 @@ def run(tier):
     finally:
         shutil.rmtree(tmpdir, ignore_errors=True)
 
+    # ---- the reader dispatch layer (BaseReader.__getitem__ / __call__ / read*, AggregateReader, SubsetSICDReader, FullResolutionFetcher)
+    try:
+        dsp = dispatch.run_reads(chk, tier)
+        fails += dsp['fails']
+        disagreements += dsp['disagreements']
+        broken += dsp['broken']
+        evaluations += dsp['evaluations']
+        chk.coverage['dispatch'] = dsp['stats']
+    except Infra as e:
+        broken.append('dispatch model driver does not build/run: ' + str(e)[:300])
+        dsp = {'stats': {'classes': 0}}
+
     evaluations += stats.get('reads', 0)
     chk.coverage.update({
         'evaluations': evaluations,
-        'distinct_nontrivial': len(seen) + len({(c[0], c[1]) for c in cases}),
+        'distinct_nontrivial': len(seen) + len({(c[0], c[1]) for c in cases}) + dsp['stats'].get('classes', 0),
         'rule': 'kernel cases: exhaustive small scope (n<=5 quick / n<=7 thorough, bounds in [-n-2,n+2], |step|<=3/4) plus random large; '
                 'segment reads: random trees (array/memmap/fileread leaves, subset in formatted and raw basis, reorient, band and block aggregates '
                 'with holes and reversed block definitions, identity / complex IQ QI MP PM kept or collapsed / LUT 1-d 2-d formats) x random subscripts (ints, negative indices, ellipsis, strides of both signs, out-of-range); '
                 'a read is non-trivial when it is non-empty; distinct = distinct (tree class, per-axis (sign, |step|>1, touches-boundary)) tuples '
-                'plus distinct (kernel, n) pairs',
+                'plus distinct (kernel, n) pairs plus distinct (reader kind, multi-image?, entry point, oracle class, outcome, model outcome) tuples of the dispatch layer; '
+                'dispatch requests: real BaseReader / AggregateReader / AggregateComplexReader(FlatSICDReader) / SIDDReader / NITFReader objects with 1-4 images of different '
+                'shapes x reader[...] with every interleaving of image index and string modifiers, negative / out-of-range indices, Ellipsis, int / tuple / None ranges, '
+                'too many / too few items, unhandled types x reader(...) / read / read_raw / read_chip with index, raw, squeeze',
         'samples': [kernel_line(c) for c in cases[:3]] + [{'tree': None}],
         'kernel_outcomes': kinds,
         'segment_stats': stats,
@@ -799,6 +818,9 @@ def run(tier):
         'tied by value with a tolerance; raw-basis subsets over subsets / complex / LUT parents are tied by the numpy oracle only; block '
         'definitions of step -1 and 2-d lookup tables are modelled as the repaired code serves them (patches F1, F5 of NOTES_SEGFIX)',
         'JPEG/JPEG2000/HDF5 segments outside the model',
+        'reader dispatch layer: Spec/Dispatch.lean is tied to base.py by the translator (Gen/Dispatch.lean regenerated from the Python text, bridge '
+        'theorems in Bridge/Dispatch.lean) and by the observed hand-over to recording data segments; list subscripts, numpy integers, bool-as-int and '
+        'readers that override __call__ (CPHD / CRSD string indices) are outside the model; exception classes are compared as refused / served only',
     ] + nitfasm.ASSUMPTIONS
 
     # ---- decide
@@ -860,6 +882,8 @@ def replay(path):
         m = c01complete.replay_case(case['case'])
         print('completeness oracle:', m)
         return 1 if m else 0
+    if case['kind'] in ('dispatch', 'dispatch-write'):
+        return dispatch.replay_case(case)
     if case['kind'] == 'nitf':
         return nitfasm.replay_case(case)
     if case['kind'] == 'kernel':
